@@ -832,16 +832,36 @@ class QueryObjectDescriptor(SymbolicExpression[T], ABC):
         :param sources: The current bindings.
         :return: An Iterable of OperationResults for each combination of values.
         """
-        var_val_gen = {
-            var: var._evaluate__(copy(sources), parent=self)
-            for var in self.selected_variables
-        }
-        for sol in generate_combinations(var_val_gen):
-            var_val = {var._id_: sol[var][var._id_] for var in self.selected_variables}
-            self._is_false_ = self._is_false_ or any(
-                sol[var].is_false for var in self.selected_variables
-            )
+        for bindings, is_false in self._evaluate_selected_variables_from_(
+            0, sources, False
+        ):
+            var_val = {var._id_: bindings[var._id_] for var in self.selected_variables}
+            self._is_false_ = self._is_false_ or is_false
             yield OperationResult({**sources, **var_val}, self._is_false_, self)
+
+    def _evaluate_selected_variables_from_(
+        self, index: int, bindings: Dict[int, HashedValue], is_false: bool
+    ) -> Iterable[typing.Tuple[Dict[int, HashedValue], bool]]:
+        """
+        Evaluate the selected variables one after the other, such that each one is evaluated under the values chosen
+        for the previous ones (two selected expressions over the same unbound variable describe the same object).
+
+        :param index: The index of the next selected variable to evaluate.
+        :param bindings: The current bindings extended by the bindings of the previous selected variables.
+        :param is_false: Whether one of the previous selected variables evaluated to false.
+        :return: An Iterable of the complete bindings and their truth value.
+        """
+        if index == len(self.selected_variables):
+            yield bindings, is_false
+            return
+        for result in self.selected_variables[index]._evaluate__(
+            copy(bindings), parent=self
+        ):
+            yield from self._evaluate_selected_variables_from_(
+                index + 1,
+                {**bindings, **result.bindings},
+                is_false or result.is_false,
+            )
 
     @cached_property
     def _all_variable_instances_(self) -> List[Variable]:
